@@ -1148,6 +1148,10 @@ func (fc *funcConverter) convertToStmts(ssaFunc *ssa.Function) ([]ast.Stmt, erro
 		}
 		specs = append(specs, spec)
 	}
+	// Ranging over the groupedVar map above is not deterministic, so sort the specs.
+	sort.Slice(specs, func(i, j int) bool {
+		return specs[i].(*ast.ValueSpec).Names[0].Name < specs[j].(*ast.ValueSpec).Names[0].Name
+	})
 	if len(specs) > 0 {
 		stmts = append(stmts, &ast.DeclStmt{Decl: &ast.GenDecl{
 			Tok:   token.VAR,
